@@ -202,6 +202,24 @@ func TestPropSignSteps(t *testing.T) {
 		before := canon.Steps(steps, canon.Mode{NoSignature: true})
 		penvCopy := sgen.CopyStrMap(penv)
 		var opts []signature.Option
+		// a caller that layers its options: an earlier WithEnv holding a sub-map of the pipeline env
+		// (same values, so "last one wins" and "later ones are layered over earlier ones" agree on the
+		// env that is signed) - that map is the caller's too and must not be modified either
+		var earlier, earlierCopy map[string]string
+		if len(penv) > 0 && rapid.IntRange(0, 3).Draw(t, "twowithenv") == 0 {
+			earlier = map[string]string{}
+			for _, k := range pnames {
+				if v, ok := penv[k]; ok && rapid.Bool().Draw(t, "inearlier") {
+					earlier[k] = v
+				}
+			}
+			if len(earlier) == 0 {
+				earlier[pnames[0]] = penv[pnames[0]]
+			}
+			earlierCopy = sgen.CopyStrMap(earlier)
+			opts = append(opts, signature.WithEnv(earlier))
+			rec.Class("two-WithEnv-options")
+		}
 		if penv != nil || rapid.Bool().Draw(t, "withenvnil") {
 			opts = append(opts, signature.WithEnv(penv))
 		}
@@ -219,6 +237,9 @@ func TestPropSignSteps(t *testing.T) {
 		}
 		if !reflect.DeepEqual(penv, penvCopy) {
 			t.Fatalf("SignSteps modified the caller's env map: %v -> %v", penvCopy, penv)
+		}
+		if earlier != nil && !reflect.DeepEqual(earlier, earlierCopy) {
+			t.Fatalf("SignSteps modified the env map of the caller's first WithEnv option: %v -> %v", earlierCopy, earlier)
 		}
 		if st.nunknown > 0 {
 			if err == nil {
